@@ -283,6 +283,8 @@ def special_lines(rng, quick, c20=False):
             add('CALLLD', 'r', 'r:%x' % v, 'r:0')
             add('CALLLD2', 'r', 'r:%x' % v, 'r:0')
     out += memseq_lines(rng, quick, c20)
+    if not c20:          # absolute addresses carried by scaled registers: not for the translated C of C20
+        out += addr_lines(rng, quick)
     return out
 
 
@@ -457,6 +459,199 @@ def special_expect(c):
     else:
         return None
     return e
+
+
+# ---------------------------------------------------------------- address arithmetic feeding a memory operand (@ADDR)
+ADDR_MAX_K = 65536
+ADDR_CONSTS = [2, 3, 4, 5, 7, 8, 9, 12, 16, 31, 32, 33, 63, 64, 65, 127, 128, 129, 130, 193, 255]
+ADDR_VALS = [1, 2, 3, -1, -2, 5, -7, 11, 20, -13, 100, -100, 6, 9]
+
+
+def addr_wrap_pairs():
+    """(c1, c2), both 2..255, whose product is not a scale (> 255) but is one modulo 256 (a product kept in 8 bits)"""
+    return [(a, b) for a in range(2, 256) for b in range(2, 256) if a * b > 255 and (a * b) & 0xff in (1, 2, 4, 8)]
+
+
+class AddrBuilder:
+    """registers 0 = a (address carrier), 1..3 = given values, 4.. = steps; every register is the linear form k*a + d
+    modulo 2^64 (documented ADD / SUB / MUL / LSH on 64 bits)"""
+
+    def __init__(self, vals):
+        self.vals = list(vals)
+        self.lin = [(1, 0)] + [(0, v & M64) for v in vals]
+        self.steps = []
+
+    def _new(self, k, d, text):
+        self.lin.append((k & M64, d & M64))
+        self.steps.append(text)
+        return len(self.lin) - 1
+
+    def mul(self, s, c, how='M'):
+        k, d = self.lin[s]
+        return self._new(k * c, d * c, '%s%d.%d' % (how, s, c))
+
+    def lsh(self, s, n):
+        k, d = self.lin[s]
+        return self._new(k << n, d << n, 'L%d.%d' % (s, n))
+
+    def add(self, s, t):
+        return self._new(self.lin[s][0] + self.lin[t][0], self.lin[s][1] + self.lin[t][1], 'A%d.%d' % (s, t))
+
+    def addc(self, s, c, how='P'):
+        k, d = self.lin[s]
+        return self._new(k, d - c if how == 'Q' else d + c, '%s%d.%d' % (how, s, c))
+
+    def copy(self, s):
+        k, d = self.lin[s]
+        return self._new(k, d, 'C%d.0' % s)
+
+    def bb(self):
+        self.steps.append('B')
+
+    def scaled(self, rng, s, c):
+        """s * c in one of the ways an address combiner recognises (or should leave alone)"""
+        x = rng.random()
+        if c > 0 and c & (c - 1) == 0 and x < 0.45:
+            return self.lsh(s, c.bit_length() - 1)
+        if x < 0.6:
+            return self.mul(s, c, 'M')
+        if x < 0.8:
+            return self.mul(s, c, 'm')
+        return self.mul(s, c, 'K')
+
+    def deco(self, rng, s):
+        """harmless detours the combiner looks through: a copy, + constant, a block boundary"""
+        x = rng.random()
+        if x < 0.12:
+            return self.copy(s)
+        if x < 0.3:
+            return self.addc(s, rng.choice([1, 8, -8, 3, 1000, -129, 0x7fffffff, -0x80000000]), rng.choice('PpQ'))
+        if x < 0.38:
+            self.bb()
+        return s
+
+    def line(self, cid, acc, ty, disp, base, index, scale, cell, val):
+        k, r = 0, disp
+        if base is not None:
+            k += self.lin[base][0]
+            r += self.lin[base][1]
+        if index is not None:
+            k += self.lin[index][0] * scale
+            r += self.lin[index][1] * scale
+        k &= M64
+        r &= M64
+        if not 1 <= k <= ADDR_MAX_K:
+            return None
+        rs = r - (1 << 64) if r >> 63 else r
+        if abs(rs) > 1 << 50:
+            return None
+        seq = '%x;%x;%s;%s;%s%s.%d.%s.%s.%d' % (k, r, ','.join('%d' % v for v in self.vals), ','.join(self.steps) or 'C0.0', acc, ty, disp,
+                                             '-' if base is None else '%d' % base, '-' if index is None else '%d' % index, scale)
+        if len(seq) > 380:
+            return None
+        return '%s @ADDR iii r mi64,b,1,0,0:%x r:%x seq=%s' % (cid, cell, val, seq)
+
+
+def addr_lines(rng, quick):
+    """loads / stores whose ADDRESS is computed by chains of add / sub / mul / lsh by constants and then used as base and /
+    or index (any scale 1..255) of a memory operand -- what the -O2/-O3 address combiner folds back into
+    base + index*scale + disp and what simplify_op lowers: sums of two and three scaled registers in every association, a
+    scaled base with a scaled index, an index scaled twice (products of scales up to 255*255, in particular the products
+    that are a hardware scale modulo 256), constants added at every level, copies, block boundaries; positive and negative
+    register values; every term takes its turn as the one that carries the address."""
+    out = []
+    n = [0]
+    tys = MEM_INT_TYPES
+
+    def emit(b, base, index, scale, disp=None):
+        acc = 'L' if rng.random() < 0.7 else 'S'
+        ty = rng.choice(tys)
+        if disp is None:
+            disp = rng.choice([0, 0, 0, 8, -8, 3, 127, -129, 1000, 0x7fffffff, -0x80000000])
+        n[0] += 1
+        l = b.line('ad%d' % n[0], acc, ty, disp, base, index, scale, rng.getrandbits(128) | (0x80 << 56) | 0x80, rng.getrandbits(64) | 0x8080)
+        if l is not None:
+            out.append(l)
+        return l is not None
+
+    def regs(k):
+        """k distinct input registers, the carrier among them at a random position"""
+        rs = rng.sample([1, 2, 3], k - 1)
+        rs.insert(rng.randrange(k), 0)
+        return rs
+
+    def builder():
+        return AddrBuilder([rng.choice(ADDR_VALS) for _ in range(3)])
+
+    def const():
+        return rng.choice(ADDR_CONSTS) if rng.random() < 0.7 else rng.randint(2, 255)
+
+    def hw():
+        return rng.choice([2, 4, 8])
+    reps = 1 if quick else 8
+    # A: sum of two scaled registers, no plain base
+    for c1 in [2, 4, 8, 3, 16, 129]:
+        for c2 in [2, 4, 8, 5, 255]:
+            for _ in range(reps * 2):
+                b = builder()
+                r1, r2 = regs(2)
+                t1, t2 = b.deco(rng, b.scaled(rng, r1, c1)), b.deco(rng, b.scaled(rng, r2, c2))
+                a = b.add(t1, t2) if rng.random() < 0.5 else b.add(t2, t1)
+                emit(b, b.deco(rng, a), None, 1)
+    # B: scaled base, plain index with a scale; C: plain base, scaled index with a scale; D: both scaled
+    for fam in 'BCD' * (40 if quick else 400):
+        b = builder()
+        r1, r2 = regs(2)
+        sc = rng.choice([hw(), hw(), const(), 1])
+        base = b.deco(rng, b.scaled(rng, r1, rng.choice([hw(), const()]))) if fam in 'BD' else r1
+        index = b.deco(rng, b.scaled(rng, r2, rng.choice([hw(), const()]))) if fam in 'CD' else r2
+        emit(b, base, index, sc)
+    # C': products of two scales that are a hardware scale modulo 256: operand scale * multiplier, and an index scaled twice
+    pairs = addr_wrap_pairs()
+    for c1, c2 in (rng.sample(pairs, 70) if quick else pairs):
+        for twice in (0, 1):
+            b = builder()
+            r1, r2 = regs(2)
+            if twice:
+                t = b.scaled(rng, b.deco(rng, b.scaled(rng, r2, c2)), c1)
+                if rng.random() < 0.5:
+                    emit(b, r1, t, 1)
+                else:
+                    emit(b, b.add(r1, t) if rng.random() < 0.5 else b.add(t, r1), None, 1)
+            else:
+                emit(b, r1, b.deco(rng, b.scaled(rng, r2, c2)), c1)
+    # E: three terms in both associations, each term plain or scaled; used as base only or split into base + index
+    for _ in range(120 if quick else 1500):
+        b = builder()
+        rs = regs(3)
+        ts = [b.deco(rng, b.scaled(rng, r, rng.choice([hw(), hw(), const()]))) if rng.random() < 0.7 else r for r in rs]
+        x = rng.random()
+        if x < 0.35:
+            emit(b, b.add(b.deco(rng, b.add(ts[0], ts[1])), ts[2]), None, 1)
+        elif x < 0.7:
+            emit(b, b.add(ts[0], b.deco(rng, b.add(ts[1], ts[2]))), None, 1)
+        else:
+            emit(b, b.deco(rng, b.add(ts[0], ts[1])), ts[2], rng.choice([1, hw(), const()]))
+    # F: longer random chains over one or two registers (scale of scale of scale, constants in between)
+    for _ in range(100 if quick else 1500):
+        b = builder()
+        r1, r2 = regs(2)
+        t = r2
+        for _ in range(rng.randint(1, 3)):
+            t = b.deco(rng, b.scaled(rng, t, rng.choice([2, 2, 3, 4, 8, const()])))
+        if rng.random() < 0.5:
+            emit(b, r1, t, rng.choice([1, hw(), const()]))
+        else:
+            u = b.deco(rng, b.scaled(rng, r1, rng.choice([1, 1, hw(), const()]))) if rng.random() < 0.5 else r1
+            emit(b, b.add(u, t) if rng.random() < 0.5 else b.add(t, u), None, 1)
+    return out
+
+
+def addr_parse(c):
+    f = c['seq'].split(';')
+    acc = f[4][0]
+    ty, disp, base, index, scale = f[4][1:].split('.')
+    return acc, ty
 
 
 # ---------------------------------------------------------------- expectation
